@@ -121,7 +121,9 @@ def overload_decorator(repo):
     def _mk(ex, vars):
         d = vars.get("definition")
         t = ex.fresh("newds", T.Ev)
-        ex.event("mkdataset", ex.as_val(d) if d is not None else None, t)
+        # which settings of the new dataset the call overrides (everything but the definition must be left at its default, None)
+        over = sorted(k for k, v in vars.items() if k not in ("self", "definition") and v is not None)
+        ex.event("mkdataset", ex.as_val(d) if d is not None else None, t, tuple(over))
         return Sym("ev", t, DS)
 
     def _reg(ex, vars):
@@ -151,6 +153,8 @@ def overload_decorator(repo):
             regs = [e for e in evs if e[0] == "register"]
             ret = getattr(p.value, "term", None)
             ob(f"{label}:builds-one-dataset#{i}", len(mk) == (0 if func_is_ds else 1), len(mk))
+            # "decorated like any other dataset": the overload gets the DEFAULT settings (its own fresh memory cache, no effects, no options), whatever the parent's are
+            ob(f"{label}:built-with-default-settings#{i}", all(len(e) > 3 and not e[3] for e in mk), [e[3] for e in mk if len(e) > 3][:2])
             if label == "symbolic-alias":
                 # a non-list alias may itself be a list at run time: both shapes are paths; every registration uses the returned object
                 ob(f"{label}:every-registration-uses-the-returned-dataset#{i}", regs and all(ret is not None and r[2].eq(ret) for r in regs) or
